@@ -3,6 +3,10 @@
   B  block adapter     : block_matrix adapter / unblock_matrix / block spmv on Kronecker-type and
                          structurally incomplete block matrices, b = 2..4 (driver adapters, op block):
                          implementation vs extracted Adapters.v + spec oracle (block spmv = scalar spmv)
+  BI block instance    : Kernels.spmv / residual evaluated at the Scalar instance BlockS (second extracted model driver
+                         "blockspmv": the objects of theorem C13_block_spmv) vs backend::spmv / residual on
+                         crs<static_matrix<Q,b,b>> + re-interpreted vectors, on builtin_hybrid (scalar vectors), and
+                         with Eigen::Matrix<double,b,b> blocks (double, dyadic data)
   Z  complex adapter   : 2x2 real expansion (double, dyadic values) vs model; complex systems
                          (Hermitian / shifted) solved exactly through the real-equivalent form,
                          checked against the complex system by the extracted cdotrow
